@@ -350,6 +350,14 @@ func (n *Node) WaitExit(d time.Duration) bool {
 	}
 }
 
+// ExpectDown tells the supervisor that the next exit of the process is intended
+// (a crash failpoint was armed).
+func (n *Node) ExpectDown() {
+	n.mu.Lock()
+	n.wantDown = true
+	n.mu.Unlock()
+}
+
 // Kill sends SIGKILL to the process group and waits for the exit.
 func (n *Node) Kill() {
 	n.mu.Lock()
